@@ -251,6 +251,16 @@ structure App where
   errHandlers : List (Nat × ErrHandler)
 deriving Inhabited
 
+/-- how the request looked when it arrived, for a request that a before-request hook rewrites
+(`request['PATH_INFO'] = …`, `request.environ['REQUEST_METHOD'] = …`: prefix stripping, method
+override).  The `Req` itself describes the request as hook number `byHook` leaves it. -/
+structure Arrival where
+  isHead : Bool
+  path : Str
+  urlRepr : Str
+  byHook : Nat
+deriving Inhabited
+
 /-- a request as far as `_handle`/`_cast`/`wsgi` look at it -/
 structure Req where
   id : Nat                -- identity of the environ object
@@ -260,7 +270,8 @@ structure Req where
   path : Str              -- decoded PATH_INFO (for the catch-all page)
   urlRepr : Str           -- `repr(html.escape(request.url))`
   json : Bool             -- `request.is_json_requested` (Accept starts with application/json)
-  route : Route
+  route : Route           -- what `to_route(request.path, request.method)` answers
+  arrival : Option Arrival := none
 deriving Inhabited
 
 /-- what the reused request object holds: the environ it was last initialised with -/
@@ -700,6 +711,18 @@ def liveAfter (name : String) (hooks : List Hook) : List Nat :=
   let l := hookList name hooks
   let rev := ((Gen.wsgiHookReversed.find? (·.1 == name)).map (·.2)).getD false
   ((entered l).foldl (applyEdit rev) (l.map (·.1), hooks.length)).1
+
+/-- The request as the code after `emit('before_request')` sees it.  `to_route` is called with
+`request.path` / `request.method` *after* the before-hooks, `wsgi` reads `REQUEST_METHOD` and the
+catch-all page reads `PATH_INFO` later still: if the rewriting hook was entered they all see the
+rewritten request (`r` itself); if an earlier hook failed (routing is then skipped) they see the
+request as it arrived. -/
+def effective (app : App) (r : Req) : Req :=
+  match r.arrival with
+  | none => r
+  | some a =>
+    if (entered (hookList "before_request" app.before)).any (·.1 == a.byHook) then r
+    else { r with isHead := a.isHead, path := a.path, urlRepr := a.urlRepr }
 
 /-- both hook lists after the request (nothing is emitted for an undecodable path) -/
 def hooksAfter (app : App) (r : Req) : List Nat × List Nat :=
